@@ -500,8 +500,7 @@ def rule_R9(P, rep):
 
 
 def run(P, rep, tier):
-    if tier == "thorough":
-        common.rule_X4(P, rep)
+    common.rule_X4(P, rep)
     v = P.variant
     simple = v == "simple_mutex"
     common.run_shared(P, rep)
